@@ -69,7 +69,10 @@ structure DComp where
 structure DComp.Ok (c : DComp) : Prop where
   good : Good c.pair
   sup_ne_none : c.sup ≠ PVal.none
-  originFree : OriginFree c.pair
+  originFree : OriginFree c.pair         -- complex DOPs set their own origin: the one they are started with is immaterial …
+  dec_originFree : ∀ (d : DecState) (o : Nat),
+    c.pair.dec { d with origin := o } = ((c.pair.dec d).1, { (c.pair.dec d).2 with origin := o })   -- … for the decoder too
+  fits_originFree : ∀ (d : DecState) (o : Nat), c.pair.fits { d with origin := o } = c.pair.fits d
   encode_eq : ∀ (fuel : Nat), c.need ≤ fuel → ∀ (s : EncState), s.cursorBit = 0 → (c.eopOnly = true → s.isEndOfPdu = true) →
     ∃ s', encodeDop fuel c.dop c.sup s true = .ok ((), s') ∧ SameCore s' (c.pair.enc s) ∧ s'.cursorBit = 0
   enc_cursor : ∀ (s : EncState), (c.pair.enc s).cursorByte = s.cursorByte + c.size
@@ -466,6 +469,8 @@ theorem DComp.struct_ok (gs : List Comp) (hok : Comps.okAll gs) (hn : Comps.name
   good := ((Comps.good gs hok).inOrigin).map _
   sup_ne_none := by simp [DComp.struct]
   originFree := (OriginFree.inOrigin (Comps.pair gs)).map _
+  dec_originFree := fun _ _ => rfl
+  fits_originFree := fun _ _ => rfl
   encode_eq := by
     intro fuel hf s hcb heop
     obtain ⟨f, rfl⟩ : ∃ f, fuel = f + 1 + 1 := ⟨fuel - 2, by simp only [DComp.struct] at hf; omega⟩
